@@ -4,6 +4,8 @@ package harness
 // with a scripted public-IP fetcher and reverse-DNS resolver.
 
 import (
+	"os"
+	"runtime"
 	"context"
 	"encoding/json"
 	"errors"
@@ -330,6 +332,11 @@ func RunRequest(t *testing.T, rq *Request) *ReqOutcome {
 		defer func() {
 			if r := recover(); r != nil {
 				out.Deadlock = fmt.Sprint(r)
+				if os.Getenv("VERIF_DEBUG_CRASH") == "2" {
+					buf := make([]byte, 1<<20)
+					n := runtime.Stack(buf, true)
+					fmt.Fprintf(os.Stderr, "DEBUGSTACK %s\n%s\nENDSTACK\n", out.Deadlock, buf[:n])
+				}
 			}
 		}()
 		body := func(t *testing.T) {
@@ -455,6 +462,7 @@ func RunRequest(t *testing.T, rq *Request) *ReqOutcome {
 				synctest.Wait()
 			}
 			out.GorAfter = bubbleGoroutines()
+			drainLeftBehind(out.GorBefore)
 		}
 		if rq.RealTime {
 			body(t)
